@@ -64,7 +64,8 @@ def gen_quantity(rng, dim=None):
         v = gen.pick(rng, [0.0, 0, 1.0, -1.0, rng.uniform(-lim, lim), rng.uniform(0, lim), 1e-12, 5e-324, -0.0])
     else:
         v = gen.pick(rng, [0.0, 0, 1, -1.0, 3.0, 36.0, rng.uniform(-1000, 1000), rng.uniform(0, 5000), 1e12, -1e12, 1e-12,
-                           5e-324, 2.5e-310, rng.uniform(-1, 1), 100, 459.67, -459.67, 273.15])
+                           5e-324, 2.5e-310, rng.uniform(-1, 1), 100, 459.67, -459.67, 273.15,
+                           2 ** 53, 2 ** 53 + 1, 2 ** 53 + 2, -(2 ** 53) - 1, 10 ** 17 + 1])   # ints a float cannot hold
     return [v, u]
 
 
@@ -75,7 +76,8 @@ def gen_spec(seed, tier):
     # duplicates-by-magnitude in different units (equal quantities must hash equally)
     twins = [([1.0, "Yard"], [3.0, "Foot"]), ([36.0, "Inch"], [1.0, "Yard"]), ([0.0, "Celsius"], [32.0, "Fahrenheit"]),
              ([1.0, "Pound"], [7000.0, "Grain"]), ([180.0, "Degree"], [6.0, "OClock"]), ([2.0, "Foot"], [24.0, "Inch"]),
-             ([0.0, "MPS"], [0.0, "FPS"]), ([1.0, "Mile"], [1760.0, "Yard"]), ([0.0, "Meter"], [0.0, "Inch"])]
+             ([0.0, "MPS"], [0.0, "FPS"]), ([1.0, "Mile"], [1760.0, "Yard"]), ([0.0, "Meter"], [0.0, "Inch"]),
+             ([2 ** 53, "Inch"], [2 ** 53 + 1, "Inch"]), ([2 ** 53 + 1, "Grain"], [2 ** 53 + 1, "Grain"])]
     for a, b in rng.sample(twins, rng.randint(1, 3)):
         pool += [a, b]
     while len(pool) < n:
@@ -120,7 +122,8 @@ def gen_op(rng, pool):
     if r < 0.72:
         if rng.random() < 0.7:
             return {"op": "cmp", "q": i, "other": gen.pick(rng, same), "c": gen.pick(rng, CMP)}
-        return {"op": "cmp_num", "q": i, "num": gen.pick(rng, [0, 0.0, 1, -1.0, 36.0, 32.0, rng.uniform(-100, 100), 7000]),
+        return {"op": "cmp_num", "q": i, "num": gen.pick(rng, [0, 0.0, 1, -1.0, 36.0, 32.0, rng.uniform(-100, 100), 7000,
+                                                               2 ** 53, 2 ** 53 + 1]),
                 "c": gen.pick(rng, CMP)}
     if r < 0.80:
         return {"op": gen.pick(rng, ["hash", "set_add", "set_check", "dict_put", "dict_get"]), "q": i,
